@@ -17,7 +17,7 @@ ALLOWED_AXIOMS = {'propext', 'Classical.choice', 'Quot.sound'}
 FORBIDDEN = re.compile(r'\b(sorry|admit|native_decide|bv_decide|implemented_by|unsafe)\b|^\s*axiom\s|maxHeartbeats\s+0')
 TRUSTED_BASE = [
     'Lean 4.33.0 kernel; axioms allowed: propext, Classical.choice, Quot.sound',
-    'tools/extract.py (ast walk; emits the literals it reads)',
+    'tools/extract.py (ast walk; emits the literals it reads); tools/py2lean.py + Model/PyRT.lean (meaning of the translated Python subset, run against CPython in C03)',
     'correspondence harness (same inputs to model and implementation, canonical comparison)',
     'hand-written Lean model of the control flow named in level_note, tied by correspondence only',
     'oracle = reading of the property text, DESIGN.md section 5/6',
